@@ -100,8 +100,10 @@ CLAIMS = {
           "complete, minus whole files removed by retention - followed by at most one more item, the torn line misread (crash_in_write: every such prefix is a well-formed crash-shaped "
           "directory; search_range_crash: the search on any such directory). long_lived_searcher: for any interleaving of writes with searches of both kinds through ONE searcher (its cached "
           "position updated by every search) each search returns exactly what a fresh searcher returns on the directory of that moment (CacheInv is established by every search - "
-          "cached_search_eq_fresh - and kept by every write). PARTIAL: the line-limited search on crash states, a crash during the creation of the writer and n = 0 are not theorems; they "
-          "are decided by the tie. Tie: the real DefaultMetricLogWriter / DefaultMetricSearcher (feature metric_log) run under strace; the observed system-call stream (creates, appended bytes, removals "
+          "cached_search_eq_fresh - and kept by every write). search_lines_crash / search_lines_after_crash: the line-limited search on every such crash state answers with a list that "
+          "meets the line-limited Spec on the held items, followed by at most one torn item (linesLoop_torn, linesOneFile_torn, linesRest_torn). search_after_crash_in_new: whatever prefix "
+          "of the two creations of DefaultMetricLogWriter::new on an empty directory has happened, both searches return the empty list and do not fail. PARTIAL only in: n = 0 and resource "
+          "names containing a line break are characterised, not asserted. Tie: the real DefaultMetricLogWriter / DefaultMetricSearcher (feature metric_log) run under strace; the observed system-call stream (creates, appended bytes, removals "
           "per operation) must equal the model's action list; searches on the live directory (long-lived and fresh searchers) and on crash states materialised from prefixes of the observed "
           "stream (event boundaries, every byte of index entries, bytes of lines incl. inside a multi-byte character) must equal the model's answers; the Spec is evaluated on the "
           "implementation's answers: range search = held items of the window; line-limited search = the first lines (at least n, whole seconds); retention keeps the newest max-file-count "
@@ -197,17 +199,21 @@ CLAIMS = {
           "value's first request up to t never exceed q+b+q*(t-first)/d), reject_only_if_insufficient, first_request_admitted, zero_threshold_rejects, bucket_run_inv. LRU layer: "
           "Lru.peek_addIfAbsent / peek_get / peek_store (a key with room behaves as in a finite map, nothing else changes), checkReject_refines_bucket (the controller's verdict and "
           "the new cell contents for a value are exactly Bucket.step on that value's cells: decision locality) and checkReject_frame (other values' cells untouched): no cross-talk "
-          "while distinct values stay within capacity; per-value override via thrFor. Tied to hotspot/traffic_shaping/reject.rs, mod.rs, cache.rs, slot.rs through EntryBuilder; "
+          "while distinct values stay within capacity; per-value override via thrFor. EVERY HISTORY: run_refines_buckets (for every request sequence of any length whose values belong to a "
+          "set of distinct values no larger than the capacity, the controller's verdicts are exactly those of independent per-value buckets; invariant CtrlInv - keys distinct, inside the "
+          "universe, both counters in sync - kept by every check: checkReject_inv, checkReject_step, checkReject_sync, Lru.room_of_universe, Lru.keys_addIfAbsent/keys_get/keys_store: nothing "
+          "is ever evicted) and controller_token_bound (through the controller, for every value, the admitted tokens never exceed q_v+b+q_v*(t-f)/d whatever the other values do). Tied to hotspot/traffic_shaping/reject.rs, mod.rs, cache.rs, slot.rs through EntryBuilder; "
           "Spec on traces: one isolated reference bucket per (rule, value) must reproduce the implementation's decisions, plus the explicit token bound."),
     design_ref="DESIGN.md §6 C06",
     technique="Lean 4 invariant + refinement proofs (per-value bucket, LRU-as-map) + differential correspondence + isolated-reference Spec oracle on implementation traces",
-    note=NOTE_COMMON + " Sequential semantics (every compare-exchange succeeds first time). lru crate modelled as a recency list; eviction paths are covered by correspondence only (small-capacity stream)."),
+    note=NOTE_COMMON + " Sequential semantics (every compare-exchange succeeds first time). lru crate modelled as a recency list; what happens once the distinct values exceed the capacity (eviction) is outside the property and covered by correspondence only (small-capacity stream)."),
  "C07": dict(
     category="proof",
     text=("Flow throttling: throttleCheck_cases (the five outcomes), flow_block_iff (rejected iff threshold<=0, batch>threshold or wait>max), flow_wait_le_max, flow_spacing / "
           "flow_spacing_run (for every arrival history the scheduled times of admitted requests are at least the later request's cost apart), flow_block_keeps_schedule, "
           "flow_caller_held + flowSlot_clock_mono (the slot returns with the clock at arrival+wait: the caller is really held). Hotspot throttling per value: hs_throttle_wait / "
-          "_pass / _blocked / _first, checkThrottle_cell (controller = per-value schedule on that value's cell, other values untouched), hs_caller_held with the ms->ns conversion. "
+          "_pass / _blocked / _first, checkThrottle_cell (controller = per-value schedule on that value's cell, other values untouched), throttle_run_refines_schedules (every request "
+          "sequence over at most `capacity` distinct values: verdicts incl. wait amounts are those of independent per-value schedules; TimeInv, nothing evicted), hs_caller_held with the ms->ns conversion. "
           "Tied to flow/traffic_shaping/throttling.rs, flow/slot.rs, hotspot/traffic_shaping/throttling.rs, hotspot/slot.rs, utils/time.rs under a virtual clock whose sleep hook "
           "advances time; Spec on traces: per-rule schedule references (spacing, bounded queueing, rejection exactly otherwise, elapsed virtual time == scheduled wait)."),
     design_ref="DESIGN.md §6 C07",
@@ -236,7 +242,8 @@ CLAIMS = {
           "(no bucket-aligned window ever holds more than the threshold, for every history in which admissions obeyed the rule; run_admOk shows runs produce such histories); "
           "flowStatFor_ok (every stat_interval_ms yields well-formed statistics). Model (Sentinel/World.lean) tied to flow/slot.rs, traffic_shaping/default.rs, "
           "rule_manager.rs::generate_stat_for, standalone_stat_slot.rs, stat_slot.rs through EntryBuilder on the real global slot chain under a virtual clock; "
-          "the admission Spec is evaluated on the implementation's own decisions."),
+          "the admission Spec is evaluated on the implementation's own decisions; after every load the kind of statistic each controller got (the resource node's windows or an own array: "
+          "StandaloneStat::reuse_global) is compared with the model's (flowStatFor; C12 flow_stat_is_world_stat)."),
     design_ref="DESIGN.md §6 C01",
     technique="Lean 4 invariant proof over operation histories (on top of the ring refinement) + differential correspondence through EntryBuilder + Spec oracle on implementation traces",
     note=NOTE_COMMON + " Modelling assumptions: counts < 2^53 (u64->f64 exact), default configuration (20x500 ms global, 2x500 ms metric), RelationStrategy::Current only, "
@@ -256,7 +263,10 @@ CLAIMS = {
     category="proof",
     text=("Hotspot-concurrency half: hs_conc_admit_iff / hs_conc_cap on the per-value cell (any build/exit sequence, T>=1), checkConc_cell (the rule's check IS the per-value check on "
           "that value's counter cell, override replaces the threshold for that value only, other values' cells untouched while the value has room in the LRU counter), override_local, "
-          "extract_key_priority / extract_negative_index / extract_missing. Spec on traces: one isolated reference per (rule, value). Characterised, not asserted: the code counts entries "
+          "extract_key_priority / extract_negative_index / extract_missing. EVERY HISTORY: concAdjust_cell (the statistic slot's up/down on a value's cell), concOp_cell, "
+          "conc_run_refines_cells (for every sequence of requests and exits of any length over at most `capacity` distinct values the controller admits exactly what independent per-value "
+          "in-flight cells admit and holds exactly their counts; nothing is evicted: ConcInv, Lru.room_of_universe) and conc_cap_every_value (no value's in-flight count ever exceeds its "
+          "own threshold). Spec on traces: one isolated reference per (rule, value). Characterised, not asserted: the code counts entries "
           "(batch plays no role) and admits the first request for a never-seen value even with threshold 0. "
           "Isolation half: isolation_admit_iff (admitted iff in-flight + n <= every threshold, any rule list, any batch), isolation_block_names_rule (named rule really exceeded, snapshot = in-flight), "
           "isolation_cap (in-flight never exceeds any threshold over any build/exit sequence with batch >= 1), freed_capacity_usable, iso_conc_eq_open, block type = Isolation. "
